@@ -141,6 +141,10 @@ func (r *ref) step(f []string, op, o string) fw.Verdict {
 		r.index[f[1]+"|"+f[2]] = f[1]
 		r.written[k] += n
 		r.dirty[k] = true
+	case "wbig":
+		if o != "ok" {
+			return fw.Verdict{OK: false, Why: op + " answered " + o, Signature: "filler write fails"}
+		}
 	case "snap", "snaprelease":
 		for k := range r.dirty {
 			r.files[k]++
